@@ -1,6 +1,7 @@
 From AQ Require Import lib.Base model.Codec model.Varint model.RangeSet model.AckFrame model.Header.
 From AQ Require Import model.TlsCodec model.TParams proofs.TParamsProofs proofs.TParamsRoundtrip.
 From AQ Require Import proofs.CodecProofs proofs.VarintProofs proofs.AckFrameProofs proofs.HeaderProofs proofs.TlsCodecProofs.
+From AQ Require Import proofs.TlsListProofs proofs.TlsRoundtrip proofs.TlsTotal.
 
 (* ---- variable-length integers (RFC 9000 section 16) ---- *)
 Theorem varint_roundtrip : forall v rest, 0 <= v < 2 ^ 62 ->
@@ -219,3 +220,119 @@ Theorem tparams_roundtrip_none_flag_refuted :
     q_disable_active_migration r' = Some false.
 Proof. exact TParamsRoundtrip.tparams_roundtrip_none_flag_refuted. Qed.
 Print Assumptions tparams_roundtrip_none_flag_refuted.
+
+(* ---- TLS handshake messages: the tree encoder, list decoding, round trips, totality ---- *)
+Theorem enc_seq_spec : forall l, enc_seq l = if fits_seq l then Ok (flat_seq l) else Err E_OVERFLOW.
+Proof. exact TlsListProofs.enc_seq_spec. Qed.
+Print Assumptions enc_seq_spec.
+
+Theorem pull_fold_fuel : forall (S : Type) (item : S -> list Z -> Res (S * list Z)), item_progress item ->
+  forall fuel rem st bs, (length bs <= fuel)%nat ->
+  pull_fold item fuel rem st bs = pull_fold item (length bs) rem st bs.
+Proof. exact @TlsListProofs.pull_fold_fuel. Qed.
+Print Assumptions pull_fold_fuel.
+
+Theorem pull_list_fuel : forall (S : Type) cap (item : S -> list Z -> Res (S * list Z)), item_progress item ->
+  forall fuel st bs, (length bs <= fuel)%nat ->
+  pull_block cap (fun len b => pull_fold item fuel len st b) bs = pull_list cap item st bs.
+Proof. exact @TlsListProofs.pull_list_fuel. Qed.
+Print Assumptions pull_list_fuel.
+
+(* every item function the decoders hand to pull_list consumes at least one byte *)
+Theorem tls_items_progress :
+  (forall w, (1 <= w)%nat -> item_progress (item_uint w)) /\ item_progress item_key_share /\
+  item_progress item_alpn /\ item_progress item_psk_identity /\
+  (forall cap, (1 <= cap)%nat -> item_progress (item_opaque cap)) /\ item_progress item_certificate_entry /\
+  item_progress (ext_item parse_client_hello_ext true) /\ item_progress (ext_item parse_server_hello_ext false) /\
+  item_progress (ext_item parse_nst_ext false) /\ item_progress (ext_item parse_ee_ext false) /\
+  item_progress (ext_item parse_cr_ext false).
+Proof. exact TlsRoundtrip.tls_items_progress. Qed.
+Print Assumptions tls_items_progress.
+
+Theorem pull_ack_ranges_fuel : forall fuel count end_ acc bs, (length bs <= fuel)%nat ->
+  pull_ack_ranges fuel count end_ acc bs = pull_ack_ranges (length bs) count end_ acc bs.
+Proof. exact TlsTotal.pull_ack_ranges_fuel. Qed.
+Print Assumptions pull_ack_ranges_fuel.
+
+Theorem pull_extensions_enc : forall parse ch xs rest,
+  Forall (x_ok parse) xs -> psk_order ch false xs = true ->
+  fits_tv (TBlock 2 (flat_map x_tree xs)) = true ->
+  pull_extensions parse ch (flat_tv (TBlock 2 (flat_map x_tree xs)) ++ rest)
+  = Ok (fold_left (x_step ch) xs est0, rest).
+Proof. exact TlsRoundtrip.pull_extensions_enc. Qed.
+Print Assumptions pull_extensions_enc.
+
+Theorem client_hello_roundtrip : forall m bytes rest, client_hello_wf m = true -> enc_seq (tree_client_hello m) = Ok bytes ->
+  pull_client_hello (bytes ++ rest) = Ok (dump_client_hello m, rest).
+Proof. exact TlsRoundtrip.client_hello_roundtrip. Qed.
+Print Assumptions client_hello_roundtrip.
+
+Theorem server_hello_roundtrip : forall m bytes rest, server_hello_wf m = true -> enc_seq (tree_server_hello m) = Ok bytes ->
+  pull_server_hello (bytes ++ rest) = Ok (dump_server_hello m, rest).
+Proof. exact TlsRoundtrip.server_hello_roundtrip. Qed.
+Print Assumptions server_hello_roundtrip.
+
+Theorem new_session_ticket_roundtrip : forall m bytes rest, new_session_ticket_wf m = true -> enc_seq (tree_new_session_ticket m) = Ok bytes ->
+  pull_new_session_ticket (bytes ++ rest) = Ok (dump_new_session_ticket m, rest).
+Proof. exact TlsRoundtrip.new_session_ticket_roundtrip. Qed.
+Print Assumptions new_session_ticket_roundtrip.
+
+Theorem encrypted_extensions_roundtrip : forall m bytes rest, encrypted_extensions_wf m = true -> enc_seq (tree_encrypted_extensions m) = Ok bytes ->
+  pull_encrypted_extensions (bytes ++ rest) = Ok (dump_encrypted_extensions m, rest).
+Proof. exact TlsRoundtrip.encrypted_extensions_roundtrip. Qed.
+Print Assumptions encrypted_extensions_roundtrip.
+
+Theorem certificate_roundtrip : forall m bytes rest, enc_seq (tree_certificate m) = Ok bytes ->
+  pull_certificate (bytes ++ rest) = Ok (dump_certificate m, rest).
+Proof. exact TlsRoundtrip.certificate_roundtrip. Qed.
+Print Assumptions certificate_roundtrip.
+
+Theorem certificate_request_roundtrip : forall m bytes rest, certificate_request_wf m = true -> enc_seq (tree_certificate_request m) = Ok bytes ->
+  pull_certificate_request (bytes ++ rest) = Ok (dump_certificate_request m, rest).
+Proof. exact TlsRoundtrip.certificate_request_roundtrip. Qed.
+Print Assumptions certificate_request_roundtrip.
+
+Theorem certificate_verify_roundtrip : forall m bytes rest, certificate_verify_wf m = true -> enc_seq (tree_certificate_verify m) = Ok bytes ->
+  pull_certificate_verify (bytes ++ rest) = Ok (dump_certificate_verify m, rest).
+Proof. exact TlsRoundtrip.certificate_verify_roundtrip. Qed.
+Print Assumptions certificate_verify_roundtrip.
+
+Theorem client_hello_pull_total : forall bs,
+  msg_good (pull_client_hello bs) /\ (forall t, bs = 1 :: t -> tls_good (pull_client_hello bs)).
+Proof. exact TlsTotal.client_hello_pull_total. Qed.
+Print Assumptions client_hello_pull_total.
+
+Theorem server_hello_pull_total : forall bs,
+  msg_good (pull_server_hello bs) /\ (forall t, bs = 2 :: t -> tls_good (pull_server_hello bs)).
+Proof. exact TlsTotal.server_hello_pull_total. Qed.
+Print Assumptions server_hello_pull_total.
+
+Theorem new_session_ticket_pull_total : forall bs,
+  msg_good (pull_new_session_ticket bs) /\ (forall t, bs = 4 :: t -> tls_good (pull_new_session_ticket bs)).
+Proof. exact TlsTotal.new_session_ticket_pull_total. Qed.
+Print Assumptions new_session_ticket_pull_total.
+
+Theorem encrypted_extensions_pull_total : forall bs,
+  msg_good (pull_encrypted_extensions bs) /\ (forall t, bs = 8 :: t -> tls_good (pull_encrypted_extensions bs)).
+Proof. exact TlsTotal.encrypted_extensions_pull_total. Qed.
+Print Assumptions encrypted_extensions_pull_total.
+
+Theorem certificate_pull_total : forall bs,
+  msg_good (pull_certificate bs) /\ (forall t, bs = 11 :: t -> tls_good (pull_certificate bs)).
+Proof. exact TlsTotal.certificate_pull_total. Qed.
+Print Assumptions certificate_pull_total.
+
+Theorem certificate_request_pull_total : forall bs,
+  msg_good (pull_certificate_request bs) /\ (forall t, bs = 13 :: t -> tls_good (pull_certificate_request bs)).
+Proof. exact TlsTotal.certificate_request_pull_total. Qed.
+Print Assumptions certificate_request_pull_total.
+
+Theorem certificate_verify_pull_total : forall bs,
+  msg_good (pull_certificate_verify bs) /\ (forall t, bs = 15 :: t -> tls_good (pull_certificate_verify bs)).
+Proof. exact TlsTotal.certificate_verify_pull_total. Qed.
+Print Assumptions certificate_verify_pull_total.
+
+Theorem finished_pull_total : forall bs,
+  msg_good (pull_finished bs) /\ (forall t, bs = 20 :: t -> tls_good (pull_finished bs)).
+Proof. exact TlsTotal.finished_pull_total. Qed.
+Print Assumptions finished_pull_total.
